@@ -12,6 +12,18 @@ type PropDef struct {
 var propOrder = []string{"C01", "C02", "C03", "C04", "C05", "C06", "C07", "C08", "C09", "C11", "C12", "C13", "C14", "C15", "C16", "C17", "C18", "C19", "C20"}
 
 var props = map[string]*PropDef{
+	"C05": {
+		Rules:      []string{"TXN-1", "TXN-2", "TXN-3"},
+		Decided:    "(in progress)",
+		NotDecided: "(in progress)",
+		Technique:  "path-sensitive go/cfg dataflow",
+	},
+	"C06": {
+		Rules:      []string{"TXN-1", "TXN-2", "TXN-3"},
+		Decided:    "a rejected WriteToken/WriteValue/AppendRaw leaves the abstract encoder state untouched on every path (commit protocol), the state machine and namespace set are transactional, scratch namespaces are balanced.",
+		NotDecided: "that the accepted token sequences are exactly the grammar's prefixes; formatting of the delivered bytes.",
+		Technique:  "path-sensitive go/cfg dataflow (atoms: mutated, error nil-ness, namespace validity, name position) with recomputed effect summaries",
+	},
 	"C19": {
 		Rules:      []string{"OPT-1", "OPT-2", "OPT-3"},
 		Decided:    "the flag constants form a consistent bit algebra, every boolean option constructor is injective and value-faithful, and JoinOptions/GetOption agree on which flag guards which value field.",
